@@ -40,10 +40,12 @@ func init() {
 			"(D6) message-field agreement: the sealer fills Cid/DevicePk/Counter/Sig/EncryptedPayload of the push message from id/headers.DevicePk/headers.Counter/headers.Sig/env.Message, seals the marshalled push message with the group secret (the opener opens with the group's shared secret, the envelope's own Nonce and Box) and stores in the envelope the nonce and box of that very Seal call; the headers rebuilt on the push path map field to same-named field; helpers shared by the log path and the push path receive device key, group key and counter in the same argument positions on both. " +
 			"(D7) atomic window update: behind UpdateOutOfStoreGroupReferences the read of the recorded first/last counters, every Put/Delete of a reference and the write of the new first/last record run with the store's message mutex write-locked on every call path, and the mutex is not released between two of them (read-modify-write of the window in one critical section). " +
 			"(D8) the window follows authenticated messages only: every call of UpdateOutOfStoreGroupReferences with a message's Counter is dominated on every call path by the accepting side of the call that opened and authenticated that message (OpenEnvelopePayload on the log path, a function whose success returns all pass an accepted Verify on the push path). " +
+			"(D9) registration window: a call of UpdateOutOfStoreGroupReferences whose counter is not a message's Counter must read it from the very DeviceChainKey value that the same function writes to the chain-key namespace before the call (or from a chain key read from the store): the window is centred on the persisted, window-advanced counter, which is what puts every precomputed key of a newly registered sender inside it; a counter of any other origin is an analysis failure. " +
+			"D2's Verify clauses are judged per push-path call site: parameters of a (shared) helper are mapped to the arguments of the call chain that starts at the push entry point, never to the union of all callers. " +
 			"Not decided: the window statement for all histories (loop arithmetic over runtime data), absence of network access, that NaCl/Ed25519 reject every altered bit, equality of payload bytes for all sizes.",
 		Trusted:     []string{"nacl/secretbox, Ed25519 (libp2p crypto), HKDF/SHA3", "go/packages+go/ssa (x/tools v0.29.0)", "go-datastore Get/Put/Delete semantics", "effects identified by the namespace constants of pkg/secretstore"},
 		Assumptions: []string{"the 'newly decrypted' flag is only stored where C01.D2 says (checked there for the whole module, here again for the push scope)", "interface calls on SecretStore resolve to the module implementation"},
-		Floors:      map[string]int{"D1": 8, "D2": 5, "D3": 7, "D4": 14, "D5": 16, "D6": 17, "D7": 5, "D8": 2},
+		Floors:      map[string]int{"D1": 8, "D2": 5, "D3": 7, "D4": 14, "D5": 16, "D6": 17, "D7": 5, "D8": 2, "D9": 1},
 		Run:         runC14,
 	})
 }
@@ -580,6 +582,7 @@ func runC14(c *Ctx) {
 	c14D6(c, ei, cs, openO, sealO, openP, pushOnly, pushAll, logAll, refFn)
 	c14D7(c, ei, updR)
 	c14D8(c, openO, openP, updR)
+	c14D9(c, ei, updR)
 }
 
 // ---- D1 consumes nothing ---------------------------------------------------
@@ -685,32 +688,40 @@ func c14D2(c *Ctx, openO *ssa.Function) {
 	} else {
 		c.ok("D2", name+"+verify-before-deliver", openO.Pos(), "every success return passes the accepting side of a signature verification")
 	}
-	// the Verify sites on the verifier chain
+	// the Verify sites on the verifier chain, each with the chain of push-path call sites that
+	// leads to it: a Verify inside a shared helper is judged through the arguments of the call
+	// that belongs to the push path, never through the union of all the helper's callers
 	type site struct {
-		fn *ssa.Function
-		ci ssa.CallInstruction
+		fn     *ssa.Function
+		ci     ssa.CallInstruction
+		frames []c14Frame
 	}
 	var sites []site
-	seen := map[*ssa.Function]bool{}
-	var walk func(fn *ssa.Function)
-	walk = func(fn *ssa.Function) {
-		if seen[fn] {
-			return
+	seen := map[ssa.Instruction]bool{}
+	var walk func(frames []c14Frame)
+	walk = func(frames []c14Frame) {
+		top := frames[len(frames)-1]
+		if top.call != nil {
+			if seen[top.call] || len(frames) > 6 {
+				return
+			}
+			seen[top.call] = true
 		}
-		seen[fn] = true
-		fi := vc.info(fn)
+		fi := vc.info(top.fn)
 		if !fi.IsVerifier {
 			return
 		}
 		for _, s := range fi.Sites {
 			if calleeKey(s.Common()) == keyVerify {
-				sites = append(sites, site{fn, s})
+				sites = append(sites, site{top.fn, s, append([]c14Frame(nil), frames...)})
 			} else if cal := staticCallee(s.Common()); cal != nil {
-				walk(cal)
+				if call, ok := s.(*ssa.Call); ok {
+					walk(append(append([]c14Frame(nil), frames...), c14Frame{cal, call}))
+				}
 			}
 		}
 	}
-	walk(openO)
+	walk([]c14Frame{{openO, nil}})
 	if len(sites) == 0 && vi.IsVerifier {
 		c.undecided("D2", name+"+Verify", openO.Pos(), "verifier chain found but no Verify site on it")
 	}
@@ -723,50 +734,47 @@ func c14D2(c *Ctx, openO *ssa.Function) {
 			c.undecided("D2", construct, posOf(v), "unexpected Verify arity")
 			continue
 		}
-		cfg := provCfg{W: w, FollowCallers: true, InlineResults: true, FollowParam: func(p *ssa.Parameter) bool {
-			f := p.Parent()
-			return fnPkg(f) != nil && fnPkg(f).Path() == pkgSecret && (f.Object() == nil || !f.Object().Exported())
-		}}
+		via := ""
+		if len(s.frames) > 1 {
+			var names []string
+			for _, fr := range s.frames {
+				names = append(names, fnName(fr.fn))
+			}
+			via = " (push path: " + strings.Join(names, " -> ") + ")"
+		}
 		// data: bytes produced by the payload box, and the ones returned
-		drs := rootsOf(cfg, cc.Args[0])
+		dv, dfn := c14ResolveUp(cc.Args[0], s.frames)
+		_, drs := c14Roles(w, dfn, dv, true)
 		okData := drs["call:"+keySBOpen]
-		why := "the verified bytes are not the output of secretbox.Open"
+		why := "the verified bytes are not the output of secretbox.Open" + via
 		if okData {
-			for _, r := range returnsOf(fn) {
+			for _, r := range returnsOf(dfn) {
 				if !isSuccessReturn(r) {
 					continue
 				}
 				for i, res := range retResults(r) {
-					if sl, isSl := fn.Signature.Results().At(i).Type().Underlying().(*types.Slice); isSl {
-						if b, isB := sl.Elem().Underlying().(*types.Basic); isB && b.Kind() == types.Byte && stripConv(res) != stripConv(cc.Args[0]) {
+					if sl, isSl := dfn.Signature.Results().At(i).Type().Underlying().(*types.Slice); isSl {
+						if b, isB := sl.Elem().Underlying().(*types.Basic); isB && b.Kind() == types.Byte && stripConv(res) != stripConv(dv) {
 							okData = false
-							why = "the bytes returned (" + c.pos(posOf(r)) + ") are not the bytes whose signature was verified"
+							why = "the bytes returned (" + c.pos(posOf(r)) + ") are not the bytes whose signature was verified" + via
 						}
 					}
 				}
 			}
 		}
 		c.check(okData, "D2", construct+".data", posOf(v), "Verify is over the opened payload, which is what is returned", why)
-		// signature: a .Sig field only
-		srs := rootsOf(cfg, cc.Args[1])
-		bad, okSig := rootsAllowed(srs, func(r string) bool {
-			if strings.HasPrefix(r, "param:") {
-				return strings.HasSuffix(r, ".Sig")
-			}
-			return strings.HasPrefix(r, "base:") || strings.HasPrefix(r, "followed:")
-		})
-		okSig = okSig && srs.hasSuffixRoot(".Sig")
-		c.check(okSig, "D2", construct+".sig", posOf(v), "signature is the push message's Sig field", fmt.Sprintf("the signature verified is not (only) the message's Sig field (root %q; roots %v)", bad, srs.list()))
-		// key: decoded from DevicePk
-		krs := rootsOf(cfg, cc.Value)
+		// signature: the push message's Sig field only
+		sv, sfn := c14ResolveUp(cc.Args[1], s.frames)
+		sroles, srs := c14Roles(w, sfn, sv, true)
+		c.check(c14Only(sroles, "OutOfStoreMessage.Sig"), "D2", construct+".sig", posOf(v), "signature is the push message's Sig field", fmt.Sprintf("the signature verified is not (only) the push message's Sig field%s (sources %v; roots %v)", via, sroles, srs.list()))
+		// key: decoded from the push message's DevicePk
+		kv, kfn := c14ResolveUp(cc.Value, s.frames)
+		kroles, krs := c14Roles(w, kfn, kv, true)
 		bad, okKey := rootsAllowed(krs, func(r string) bool {
-			if strings.HasPrefix(r, "param:") {
-				return strings.HasSuffix(r, ".DevicePk")
-			}
-			return strings.HasPrefix(r, "base:") || strings.HasPrefix(r, "followed:") || r == "const:nil" || r == "call:"+keyUnmEd
+			return strings.HasPrefix(r, "param:") || strings.HasPrefix(r, "base:") || r == "const:nil" || r == "call:"+keyUnmEd
 		})
-		okKey = okKey && krs["call:"+keyUnmEd] && krs.hasSuffixRoot(".DevicePk")
-		c.check(okKey, "D2", construct+".key", posOf(v), "verifying key is decoded from the push message's DevicePk", fmt.Sprintf("the verifying key does not (only) come from the message's DevicePk (root %q; roots %v)", bad, krs.list()))
+		okKey = okKey && krs["call:"+keyUnmEd] && c14Only(kroles, "OutOfStoreMessage.DevicePk")
+		c.check(okKey, "D2", construct+".key", posOf(v), "verifying key is decoded from the push message's DevicePk", fmt.Sprintf("the verifying key does not (only) come from the push message's DevicePk%s (sources %v; root %q; roots %v)", via, kroles, bad, krs.list()))
 		// both verdicts reject
 		okRej, whyRej := true, ""
 		for _, vv := range []ssa.Value{boolVerdict(v), errVerdict(v)} {
@@ -776,6 +784,88 @@ func c14D2(c *Ctx, openO *ssa.Function) {
 		}
 		c.check(okRej, "D2", construct+".reject", posOf(v), "a failed or erroring Verify rejects", "Verify verdict not enforced: "+whyRej)
 	}
+}
+
+// c14Frame: one step of a call chain: fn was entered through call (nil for the root).
+type c14Frame struct {
+	fn   *ssa.Function
+	call *ssa.Call
+}
+
+// c14ParamIndex: index of p in its function's parameter list, or -1.
+func c14ParamIndex(p *ssa.Parameter) int {
+	for i, q := range p.Parent().Params {
+		if q == p {
+			return i
+		}
+	}
+	return -1
+}
+
+// c14StoredField: the single value stored into field `field` of the struct allocated by al.
+func c14StoredField(al *ssa.Alloc, field string) ssa.Value {
+	if al.Referrers() == nil {
+		return nil
+	}
+	var stored ssa.Value
+	n := 0
+	for _, r := range *al.Referrers() {
+		fa, ok := r.(*ssa.FieldAddr)
+		if !ok || fa.Referrers() == nil {
+			continue
+		}
+		st, ok := fa.X.Type().Underlying().(*types.Pointer).Elem().Underlying().(*types.Struct)
+		if !ok || st.Field(fa.Field).Name() != field {
+			continue
+		}
+		for _, rr := range *fa.Referrers() {
+			if s, ok := rr.(*ssa.Store); ok && s.Addr == ssa.Value(fa) {
+				stored = s.Val
+				n++
+			}
+		}
+	}
+	if n == 1 {
+		return stored
+	}
+	return nil
+}
+
+// c14ResolveUp maps a value of the innermost frame to the value it denotes on this call chain:
+// a bare parameter becomes the argument of the call that entered the function; a field read
+// of a pointer parameter whose argument is a struct built by the caller becomes the value the
+// caller stored in that field. It stops at the first value that is neither, and returns it
+// with the function it lives in.
+func c14ResolveUp(v ssa.Value, frames []c14Frame) (ssa.Value, *ssa.Function) {
+	for i := len(frames) - 1; i >= 0; i-- {
+		fr := frames[i]
+		v = c14Resolve(stripConv(v), 0)
+		if fr.call == nil {
+			return v, fr.fn
+		}
+		args := fr.call.Common().Args
+		if p, ok := v.(*ssa.Parameter); ok && p.Parent() == fr.fn {
+			if idx := c14ParamIndex(p); idx >= 0 && idx < len(args) {
+				v = args[idx]
+				continue
+			}
+			return v, fr.fn
+		}
+		if base, field := c14FieldOf(v); base != nil {
+			if p, ok := stripConv(base).(*ssa.Parameter); ok && p.Parent() == fr.fn {
+				if idx := c14ParamIndex(p); idx >= 0 && idx < len(args) {
+					if al, ok := stripConv(args[idx]).(*ssa.Alloc); ok {
+						if sv := c14StoredField(al, field); sv != nil {
+							v = sv
+							continue
+						}
+					}
+				}
+			}
+		}
+		return v, fr.fn
+	}
+	return v, frames[0].fn
 }
 
 // ---- D3 truthful flag -------------------------------------------------------
@@ -1900,5 +1990,76 @@ func c14D8(c *Ctx, openO, openP, updR *ssa.Function) {
 	}
 	if n == 0 {
 		c.undecided("D8", fnName(openO)+"+window-after-open", openO.Pos(), "no call of UpdateOutOfStoreGroupReferences with a message counter found")
+	}
+}
+
+// ---- D9 the window set at registration is centred on the persisted chain key -------------
+
+// c14D9: every call of UpdateOutOfStoreGroupReferences has a counter of known origin. A
+// message's Counter is D8's subject. A chain key's Counter (registration of a sender) must be
+// read from the very chain-key value that the same function hands to the write on the
+// chain-key namespace before the call: the precomputed message keys are the ones after the
+// announced key up to the persisted one, and references are kept +-size around the counter
+// given here, so only the persisted (advanced) counter puts every precomputed key inside the
+// window. Any other origin cannot be related to the keys the store holds.
+func c14D9(c *Ctx, ei *effectInfo, updR *ssa.Function) {
+	w := c.W
+	putChain := eff("Put", nsChainKey)
+	n := 0
+	for _, fn := range w.ModFuncs {
+		for _, u := range callsIn(fn, func(k string, cc *ssa.CallCommon) bool { return k == keyUpdRefsIface || staticCallee(cc) == updR }) {
+			if _, isCall := u.(*ssa.Call); !isCall {
+				continue
+			}
+			var ctr ssa.Value
+			for _, a := range u.Common().Args {
+				if c14TypeName(a.Type()) == "uint64" {
+					ctr = a
+				}
+			}
+			base, field := c14FieldOf(c14Resolve(ctr, 0))
+			construct := fnName(fn) + "+window-counter-origin"
+			if base != nil && field == "Counter" && (isNamed(base.Type(), pkgTypes, "MessageHeaders") || isNamed(base.Type(), pkgTypes, "OutOfStoreMessage")) {
+				continue // a message's counter: D8
+			}
+			n++
+			c.analysed(fn)
+			if base == nil || field != "Counter" || !isNamed(base.Type(), pkgTypes, "DeviceChainKey") {
+				c.undecided("D9", construct, posOf(u), "the counter given to UpdateOutOfStoreGroupReferences is neither a message's Counter nor a chain key's Counter: its relation to the keys held by the store is not modelled")
+				continue
+			}
+			// the chain-key writes of this function that can run before the call
+			var written []ssa.Value
+			nSites := 0
+			for _, s := range ei.sitesWith(fn, putChain) {
+				if !instrReaches(s.Instr.(ssa.Instruction), u.(ssa.Instruction)) {
+					continue
+				}
+				nSites++
+				for _, a := range s.Instr.Common().Args {
+					if isNamed(a.Type(), pkgTypes, "DeviceChainKey") {
+						written = append(written, a)
+					}
+				}
+			}
+			switch {
+			case nSites == 0 && isStoredChainKey(w, base):
+				c.ok("D9", construct, posOf(u), "the window is centred on the counter of the chain key read from the store")
+			case nSites == 0:
+				c.fail("D9", construct, posOf(u), "the window is centred on the counter of a chain key that this function neither persisted nor read from the store")
+			default:
+				same := len(written) > 0
+				for _, wv := range written {
+					if !c14SameObject(stripConv(wv), stripConv(base)) {
+						same = false
+					}
+				}
+				c.check(same, "D9", construct, posOf(u), "the window is centred on the counter of the chain key that was just persisted",
+					"the counter given to UpdateOutOfStoreGroupReferences is read from another chain-key value than the one written to the chain-key namespace before it (typically the announced key instead of the one advanced by the precomputed window): the references cover [c-size, c+size) while the precomputed keys are c+1..c+window, so the last precomputed messages open through the log but their push payloads are refused as unknown group reference")
+			}
+		}
+	}
+	if n == 0 {
+		c.undecided("D9", fnName(updR)+"+window-counter-origin", updR.Pos(), "no call of UpdateOutOfStoreGroupReferences outside message delivery found (registration no longer creates the window?)")
 	}
 }
